@@ -151,6 +151,7 @@ let handle kind c =
     let quiet_local = ref None in
     let flagged = Hashtbl.create 8 in
     let void_ready = Hashtbl.create 4 in
+    let lock_holder = Hashtbl.create 4 in
     let once cls d f = if not (Hashtbl.mem flagged (cls, d)) then (Hashtbl.replace flagged (cls, d) (); f cls d) in
     let witness_ever w =
       Hashtbl.mem ever_local ("local." ^ w ^ ".json") || Hashtbl.mem ever_local (w ^ ".json")
@@ -330,6 +331,20 @@ let handle kind c =
              | _ -> ());
             pend.(tid) <- (if k >= 2 || (match o with O5xx | ONone -> true | _ -> false) then None else Some (o, f, w, had, marker0, k))
           | _ -> ()));
+      (* C08, the lock protocol (C08_lock_removed_by_holder / C08_lock_kept_by_others): a lock file
+         of upload/ disappears only by a step of the thread whose exclusive creation made it appear *)
+      List.iter (fun (n, _) ->
+          if has_suffix n ".json.lock" && not (List.mem_assoc n upl) then begin
+            (match Hashtbl.find_opt lock_holder n with
+             | Some h when h = tid -> ()
+             | Some h -> once "lock_released_by_other"
+                           (Printf.sprintf "step %d: thread %d removed upload/%s, which thread %d created and has not released" i tid n h) prop08
+             | None -> once "lock_released_by_other"
+                         (Printf.sprintf "step %d: thread %d removed upload/%s, a lock it does not hold (left by an earlier run)" i tid n) prop08);
+            Hashtbl.remove lock_holder n
+          end) !prev_up;
+      List.iter (fun (n, _) ->
+          if has_suffix n ".json.lock" && not (List.mem_assoc n !prev_up) then Hashtbl.replace lock_holder n tid) upl;
       List.iter (fun (n, _) -> Hashtbl.replace ever_local n ()) loc;
       List.iter (fun (n, _) -> Hashtbl.replace ever_up n ()) upl;
       prev_local := loc; prev_up := upl;
